@@ -8,7 +8,7 @@ import (
 	"strconv"
 
 	"verif/internal/chk"
-	_ "verif/internal/checks"
+	"verif/internal/checks"
 	"verif/internal/run"
 )
 
@@ -23,6 +23,10 @@ func main() {
 	}
 	if os.Args[1] == "worker" {
 		workerMain(os.Args[2:])
+		return
+	}
+	if os.Args[1] == "prebuild" {
+		checks.Prebuild()
 		return
 	}
 	prop := os.Args[1]
